@@ -274,8 +274,12 @@ func c11Run(s *sim.Sim, p *sim.Params) {
 		k       int
 	}
 	plans := make([]clientPlan, nclients)
+	v6 := s.Choose(sim.SWork, 4) == 0 // IPv6 peers whose addresses share their leading groups
 	for i := range plans {
 		plans[i].host = fmt.Sprintf("10.0.0.%d", i+1)
+		if v6 {
+			plans[i].host = fmt.Sprintf("[2001:db8::%x]", i+1)
+		}
 		if y.direct && y.trust && len(y.trusted) > 0 && s.Choose(sim.SWork, 2) == 0 {
 			plans[i].host = "10.9.9.9" // arrives through the trusted proxy
 		}
